@@ -26,6 +26,8 @@ FUNC_ARGS = {"abs": ("-3", "n"), "all": ("[True, False]", "xs"), "any": ("[True]
              "zip": ("[1, 2], 'ab'", "xs, s"), "filter": ("None, [0, 1]", "None, xs"), "divmod": ("7, 2", "n, 2"),
              "format": ("3, 'd'", "n, 'd'"), "hash": ("'ab'", "s"), "hex": ("255", "n"), "bin": ("5", "n"), "oct": ("8", "n"),
              "iter": ("[1, 2]", "xs"), "next": ("iter([1, 2])", "iter(xs)"), "id": ("1", "n")}
+KW_ARGS = {"round": "2.567, ndigits=2", "print": "n, s, sep='-', end=''", "sorted": "xs, reverse=True", "int": "s, base=10",
+           "max": "xs, key=abs", "min": "xs, default=0", "open": "s, mode='r'", "enumerate": "xs, start=1", "sum": "xs, start=0"}
 METHOD_ARGS = {"center": "5", "count": "'a'", "endswith": "'b'", "find": "'a'", "index": "'a'", "join": "['x', 'y']", "ljust": "5",
                "replace": "'a', 'b'", "rfind": "'a'", "rindex": "'a'", "rjust": "5", "rsplit": "", "split": "", "startswith": "'a'",
                "zfill": "4", "format": "1", "append": "3", "extend": "[3]", "insert": "0, 3", "pop": "", "remove": "1",
@@ -101,6 +103,8 @@ def concretise(cell):
         call = "%s(%s)" % (cell["s"], lit if cell["e"] == "literal" else var)
         if cell["e"] == "nested":
             call = "str(%s(%s))" % (cell["s"], var)
+        if cell["e"] == "kw":
+            return PRELUDE + in_context("r = %s(%s)\nprint(r)" % (cell["s"], KW_ARGS[cell["s"]]), cell["c"]) + "\n"
         if cell["e"] == "used":
             call = "%s(%s)" % (cell["s"], var)
             return PRELUDE + in_context("r = %s\n%s" % (call, USE[cell["s"]]), cell["c"]) + "\n"
